@@ -351,3 +351,29 @@ V('c02-twin-namelen-ge', 'C02', 'C02.NAMELEN', INCF,
   "        if len(name) > MAX_NAME_LENGTH:", "        if len(name) >= MAX_NAME_LENGTH + 1:", expect='silent')
 V('c02-twin-loop-while-rewrite', 'C02', 'C02.LOOPS', INCF,
   "                off += DNS_COMPRESSION_HEADER_LEN + length\n                continue", "                off += length\n                off += 1\n                continue", expect='silent')
+
+# ---------------------------------------------------------------- C15
+V('c15-send-handler-removed', 'C15', 'C15.ESCAPE', CORE,
+  "        except NamePartTooLongException:\n            # A name learned", "        except NonUniqueNameException:\n            # A name learned", names=['NamePartTooLongException'])
+V('c15-raise-in-respond', 'C15', 'C15.ESCAPE', '_listener.py',
+  "        packets = self._deferred.pop(addr, [])\n        if msg:\n            packets.append(msg)\n",
+  "        packets = self._deferred.pop(addr, [])\n        if msg:\n            packets.append(msg)\n        if not packets:\n            raise ValueError('no packets to answer')\n", names=['_respond_query'])
+V('c15-assert-in-handler', 'C15', 'C15.ESCAPE', QHF,
+  "        first_packet = packets[0]\n        ucast_source = port != _MDNS_PORT", "        first_packet = packets[0]\n        assert first_packet.valid\n        ucast_source = port != _MDNS_PORT", names=['handle_assembled_query'])
+V('c15-decoder-leak', 'C15', 'C15.ESCAPE', INCF,
+  "DECODE_EXCEPTIONS = (IndexError, struct.error, IncomingDecodeError)", "DECODE_EXCEPTIONS = (struct.error, IncomingDecodeError)", names=['IndexError'])
+V('c15-nsec-from-raw-types', 'C15', 'C15.ESCAPE', QHF,
+  "            missing_types: Set[int] = _ADDRESS_RECORD_TYPES - seen_types", "            missing_types: Set[int] = {type_} - seen_types", names=['DNSNsec.write'])
+V('c15-nsec-unguarded', 'C15', 'C15.ESCAPE', QHF,
+  "            elif type_ in missing_types:\n                assert service.server", "            else:\n                assert service.server", names=['DNSNsec.write'])
+V('c15-listener-shim-inherited', 'C15', 'C15.ESCAPE', BR,
+  "    def async_update_records(self, zc: 'Zeroconf', now: float_, records: List[RecordUpdate]) -> None:\n        \"\"\"Callback invoked by Zeroconf when new information arrives.",
+  "    def _async_update_records(self, zc: 'Zeroconf', now: float_, records: List[RecordUpdate]) -> None:\n        \"\"\"Callback invoked by Zeroconf when new information arrives.", names=['update_record'])
+V('c15-server-key-alone', 'C15', 'C15.ESCAPE', INF,
+  "        if self.server is None:\n            self.server = self._name\n            self.server_key = self.key", "        if self.server is None:\n            self.server_key = self.key", names=['AssertionError'])
+V('c15-nsec-known-answer', 'C15', 'C15.ESCAPE', INF,
+  "            out, qu_question, history, cache, now, server, _TYPE_AAAA, _CLASS_IN, False\n        )\n        return out",
+  "            out, qu_question, history, cache, now, server, _TYPE_AAAA, _CLASS_IN, False\n        )\n        self._add_question_with_known_answers(\n            out, qu_question, history, cache, now, server, _TYPE_NSEC, _CLASS_IN, False\n        )\n        return out", names=['DNSNsec.write'])
+# twins
+V('c15-twin-handler-tuple', 'C15', 'C15.ESCAPE', CORE,
+  "        except NamePartTooLongException:\n            # A name learned", "        except (NamePartTooLongException, NonUniqueNameException):\n            # A name learned", expect='silent')
